@@ -408,11 +408,14 @@ def run_driver(run, comp, plan_lines, race=False, timeout=1800, args=(), allow_f
     with open(pf, "w") as f:
         for ln in plan_lines:
             f.write(json.dumps(ln, separators=(",", ":")) + "\n")
+    t0 = time.time()
     try:
         p = subprocess.run([drv, comp, pf, tf] + list(args), stdout=subprocess.PIPE, stderr=subprocess.PIPE,
                            timeout=timeout, text=True, errors="replace")
     except subprocess.TimeoutExpired:
         raise Inconclusive("driver %s timed out" % comp)
+    if os.environ.get("VERIF_DEBUG"):
+        log("  [drv] %s: %d plan lines, %.1fs%s" % (comp, len(plan_lines), time.time() - t0, (" stderr: " + p.stderr[-300:]) if p.stderr else ""))
     if p.returncode != 0 and not allow_fail:
         raise Inconclusive("driver %s failed rc=%d: %s" % (comp, p.returncode, p.stderr[-2000:]))
     evs = []
